@@ -538,8 +538,43 @@ def _rand_case(rng, calls, err_ok, init_mode=None):
             "logs": {k: _rand_prog(rng, True, err_ok, 3) if rng.random() < 0.5 else [] for k in LOGS}}
     return case
 
+def _base():
+    return {"leaves": [[1, 2], [3], [], [4]], "dicts": [[[0, 0], [1, 1]], [[0, 1], [1, 0]], [[0, 2], [1, 3]], [[0, 3], [1, 3]], [[0, 0], [1, 2]], [[0, 1]]],
+            "start": [0, 1, 2, 3, 4], "init": [1, 2, 3, 4, 5], "init_strict": False, "t_max": 4, "rep0": 0, "calls": [[1, 1, 1]],
+            "ops": {k: [] for k in OPS}, "logs": {k: [] for k in LOGS}}
+
+def _systematic():
+    """corners named in the property's quantifier, one by one"""
+    out = []
+    for j in range(NSLOT):                      # every conjunct of is_initialized; every slot of initialize's result
+        c = _base(); c["start"][j] = None; out.append(c)
+        c = _base(); c["start"] = [None] * NSLOT; c["init"][j] = None; out.append(c)
+        c = _base(); c["start"] = [None] * NSLOT; c["init"][j] = None; c["calls"] = [[0, 1, 1], [1, 0, 0]]; out.append(c)
+    c = _base(); c["init_strict"] = True; out.append(c)                         # initialised: initop never called
+    c = _base(); c["start"] = [None] * NSLOT; c["calls"] = [[0, 0, 1], [2, 1, 1]]; out.append(c)   # initialised by the first call only
+    for j in range(NSLOT):                      # each container separately: in-place leaf / dict mutation across replicates
+        for act in (["app", j, 0, 9], ["set", j, 2, [5]], ["del", j, 1], ["appt", j, 1]):
+            for where in ("eval", "ssel"):
+                c = _base(); c["calls"] = [[2, 1, 0]]; c["ops"][where] = [act]; out.append(c)
+        c = _base(); c["calls"] = [[2, 0, 1]]; c["logs"]["init"] = [["app", j, 1, 6]]; out.append(c)
+    for k in OPS:                               # wrong return type in every slot, raising operator / logbook
+        for j in range(NSLOT):
+            c = _base(); c["calls"] = [[2, 2, 1]]; c["ops"][k] = [["app", 0, 0, 1], ["bad", j]]; out.append(c)
+        c = _base(); c["calls"] = [[1, 2, 1]]; c["ops"][k] = [["app", 1, 0, 1], ["raise"], ["app", 1, 0, 2]]; out.append(c)
+        for mk in (2, 3, 4):                    # miscout keys that are parameter names of the log call
+            for li in (0, 1):
+                c = _base(); c["calls"] = [[1, 1, li]]; c["ops"][k] = [["misc", 0, 7], ["misc", mk, 1]]; out.append(c)
+    for k in LOGS:
+        c = _base(); c["calls"] = [[1, 2, 1]]; c["logs"][k] = [["app", 2, 0, 1], ["raise"]]; out.append(c)
+    # the mating configuration: built by pselect, mutated by log_pselect and mate, remembered, aliased with a container
+    c = _base(); c["calls"] = [[2, 2, 1]]
+    c["ops"]["psel"] = [["set", 5, 0, [1]], ["share", 5, 1, 0, 0], ["stash", 5, 0], ["misc", 0, 3], ["misc", 1, 4], ["misc", 0, 5]]
+    c["logs"]["psel"] = [["app", 5, 0, 2]]; c["ops"]["mate"] = [["app", 5, 1, 8], ["move", 1, 5], ["misc", 1, 1]]
+    c["ops"]["ssel"] = [["unstash", 3, 0], ["sett", 3, 2]]; out.append(c)
+    return out
+
 def gen_cases(rng, tier):
-    cases = []
+    cases = _systematic()
     # sweep of the loop counts with clean (error-free) programs
     for nrep in (-1, 0, 1, 2, 3):
         for ngen in (-1, 0, 1, 2, 3):
@@ -556,7 +591,7 @@ def gen_cases(rng, tier):
                   "eval": [["sett", 3, 1], ["app", 2, 1, 5], ["stash", 0, 0]], "ssel": [["new", 0], ["share", 4, 0, 0, 0], ["unstash", 2, 0]]}
     mut["logs"] = {"init": [["app", 0, 1, 8]], "psel": [["app", 5, 0, 3]], "mate": [], "eval": [["appt", 4, 2]], "ssel": [["del", 1, 0]]}
     cases.append(mut)
-    n_rand = 60 if tier == "quick" else 2400
+    n_rand = 110 if tier == "quick" else 2400
     for _ in range(n_rand):
         ncalls = rng.choice([1, 1, 1, 2])
         calls = [[rng.choice([0, 1, 2, 2, 3]), rng.choice([0, 1, 1, 2, 3]), rng.randint(0, 1)] for _ in range(ncalls)]
